@@ -49,10 +49,12 @@ func TestDriverQuery(t *testing.T) {
 			sr := r.Fork(uint64(1000 + i))
 			var o stepOut
 			switch k := sr.Intn(100); {
-			case k < 15:
+			case k < 13:
 				o = w.stepEthCall(sr)
-			case k < 34:
+			case k < 28:
 				o = w.stepEstimate(sr)
+			case k < 34:
+				o = w.stepTxArgs(sr)
 			case k < 43:
 				o = w.stepTrace(sr)
 			case k < 50:
